@@ -244,9 +244,12 @@ package stdlibspec
 // ---------------------------------------------------------------------------
 // decoding helpers: total (no panic), results unconstrained
 // (used for the variant index only: writes the decoded value through the pointer in v)
+// lastDecodedRefs: the variant index the last json.Unmarshal produced
+//@ ghost var lastDecodedRefs ResponseRefs
 //@ extern encoding/json.Unmarshal(data, v)
 //@   requires typeis(v, *ResponseRefs)
-//@   assigns cell(as(v, *ResponseRefs))
+//@   assigns cell(as(v, *ResponseRefs)), lastDecodedRefs
+//@   ensures lastDecodedRefs == *as(v, *ResponseRefs)                 # ghost-update
 //@ extern encoding/json.Marshal(v)
 //@   pure
 //@ extern bytes.NewReader(b)
@@ -460,6 +463,7 @@ package stdlibspec
 //@ extern (*encoding/base64.Encoding).EncodeToString(enc, src)
 //@   pure
 //@   ensures b64Text(result)
+//@   ensures enc == base64.RawStdEncoding ==> result == b64std(bytesOf(src))
 //@ extern path/filepath.Join(elem)
 //@   pure
 //@   requires forall j int :: 0 <= j && j < len(elem) ==> len(elem[j]) > 0
@@ -487,17 +491,21 @@ package stdlibspec
 //@ iface crypto/cipher.AEAD.NonceSize(g)
 //@   pure
 //@   ensures result == nonceSize(g)
+// Seal appends to dst: it may write into dst's backing array beyond len(dst) (when the capacity
+// allows) or return a new array; either way the first len(dst) bytes are dst's.
 //@ iface crypto/cipher.AEAD.Seal(g, dst, nonce, plaintext, additionalData)
-//@   pure
-//@   ensures bytesOf(result) == bytesOf(dst) + sealed(g, bytesOf(nonce), bytesOf(plaintext))
+//@   assigns elems(dst)
+//@   ensures bytesOf(result) == old(bytesOf(dst)) + sealed(g, old(bytesOf(nonce)), old(bytesOf(plaintext)))
+//@   ensures sameArray(result, dst) || fresh(result)
 //@ iface crypto/cipher.AEAD.Open(g, dst, nonce, ciphertext, additionalData)
 //@   assigns elems(dst)
 //@   ensures result1 == nil && len(dst) == 0 ==> old(bytesOf(ciphertext)) == sealed(g, old(bytesOf(nonce)), bytesOf(result0))
 //@ extern io.ReadFull(r, buf)
 //@   assigns elems(buf), lastRead
 //@   ensures result1 == nil ==> bytesOf(buf) == lastRead && result0 == len(buf)
-//@ extern (*encoding/base64.Encoding).DecodeString
+//@ extern (*encoding/base64.Encoding).DecodeString(enc, s)
 //@   pure
+//@   ensures enc == base64.RawStdEncoding ==> (forall x string :: s == b64std(x) ==> result1 == nil && bytesOf(result0) == x)
 //@ extern crypto/aes.NewCipher
 //@   pure
 //@   ensures result1 == nil ==> result0 != nil
@@ -539,3 +547,13 @@ package stdlibspec
 //@   ensures len(result) == len(s) && (forall i int :: 0 <= i && i < len(s) ==> result[i] == s[i])
 //@ extern time.ParseDuration
 //@   pure
+
+// unicode/utf8 and encoding/base64 (RawStdEncoding) as used by the index escaping
+//@ extern unicode/utf8.ValidString(s)
+//@   pure
+//@   ensures result == validUTF8(s)
+//@ extern strings.CutPrefix(s, prefix)
+//@   pure
+//@   ensures result1 == hasPfx(s, prefix)
+//@   ensures result1 ==> result0 == s[len(prefix):len(s)]
+//@   ensures !result1 ==> result0 == s
